@@ -236,6 +236,9 @@ func relayCounters(c *sio.Crew) map[string]float64 {
 		if mid == sio.CaptainMachine || mid == sio.TimersMachine || m.State == nil || m.State.NodeName != "listen" {
 			continue
 		}
+		if m.Specter == nil || m.Specter.Spec() == nil {
+			continue // no spec yet: the machine is inert and counts nothing
+		}
 		n, _ := m.State.Bs["n"].(float64)
 		acc[mid] = n
 	}
